@@ -70,11 +70,17 @@ fn tri_premise(s: &State) -> Result<TriCtx, String> {
     if let Some(m) = adjacency_mismatch(s, &mv) {
         return Err(m);
     }
-    // every triangle clearly non-degenerate
+    // every triangle clearly non-degenerate, all with the same orientation
+    let mut signs = BTreeSet::new();
     for t in &set {
-        if cross(t[0], t[1], t[2]).abs() < 1e-9 {
+        let c = cross(t[0], t[1], t[2]);
+        if c.abs() < 1e-9 {
             return Err("degenerate triangle".into());
         }
+        signs.insert(c > 0.0);
+    }
+    if signs.len() > 1 {
+        return Err("triangles of both orientations".into());
     }
     Ok(TriCtx { mv, set })
 }
@@ -178,6 +184,22 @@ pub fn check_remesh(pre: &State, post: &State, op: &Op, res: &Result<Res, String
                 probe.premise_failed += 1;
                 return out;
             }
+            // the link condition on a mesh with boundary, with the usual convention of a virtual
+            // vertex beyond the boundary: two boundary end points have that virtual vertex as a
+            // common neighbour, which is an opposite corner only when the edge itself is on the
+            // boundary (collapsing an interior edge between two boundary vertices pinches the
+            // mesh whatever the implementation)
+            if r != 0 {
+                let on_boundary = |p: P| -> bool {
+                    ctx.mv.faces.iter().any(|f| {
+                        f.darts.iter().enumerate().any(|(i, &dd)| pre.b(2, dd) == 0 && (f.pts[i] == p || f.pts[(i + 1) % 3] == p))
+                    })
+                };
+                if on_boundary(a) && on_boundary(b) {
+                    probe.premise_failed += 1;
+                    return out;
+                }
+            }
             collapse_targets = if mask_has(pre.kinds, K_VA) {
                 let (ia, ib) = (pv[l as usize], pv[pre.b(1, l) as usize]);
                 match (pre.attrs[K_VA][ia as usize], pre.attrs[K_VA][ib as usize]) {
@@ -208,7 +230,8 @@ pub fn check_remesh(pre: &State, post: &State, op: &Op, res: &Result<Res, String
     let mvp = match view(post) {
         Ok(m) => m,
         Err(e) => {
-            out.push(fnd("C15", "mesh-broken-after-kernel", format!("{op:?}: {e}")));
+            let class = if kind == 3 && r == 0 && e.contains("open") { "boundary-collapse-leaves-open-face" } else { "mesh-broken-after-kernel" };
+            out.push(fnd("C15", class, format!("{op:?}: {e}")));
             return out;
         }
     };
@@ -244,6 +267,26 @@ pub fn check_remesh(pre: &State, post: &State, op: &Op, res: &Result<Res, String
         }
         match matched {
             None => {
+                // is it the right mesh with the resulting vertex at an unexpected place?
+                let old_pts: BTreeSet<P> = ctx.set.iter().flatten().copied().filter(|p| *p != a && *p != b).collect();
+                let mut cands: BTreeSet<P> = got.iter().flatten().copied().filter(|p| !old_pts.contains(p)).collect();
+                cands.insert(a);
+                cands.insert(b);
+                for tc in cands {
+                    let mut w: BTreeSet<[P; 3]> = BTreeSet::new();
+                    for tri in &want {
+                        if tri.contains(&a) && tri.contains(&b) {
+                            continue;
+                        }
+                        let m: Vec<P> = tri.iter().map(|&p| if p == a || p == b { tc } else { p }).collect();
+                        w.insert(canon([m[0], m[1], m[2]]));
+                    }
+                    if w == got {
+                        out.clear();
+                        out.push(fnd("C15", "collapse-vertex-misplaced", format!("{op:?}: the edge {:?} - {:?} was collapsed onto {:?}; expected one of {:?}", pf(a), pf(b), pf(tc), collapse_targets.iter().map(|p| pf(*p)).collect::<Vec<_>>())));
+                        return out;
+                    }
+                }
                 if out.is_empty() {
                     out.push(fnd("C15", "collapse-wrong-mesh", format!("{op:?}: the resulting mesh is not the collapse of the edge onto an end point or the midpoint")));
                 }
@@ -251,9 +294,12 @@ pub fn check_remesh(pre: &State, post: &State, op: &Op, res: &Result<Res, String
             }
             Some(t) => {
                 // orientation around the resulting vertex
-                let signs: BTreeSet<bool> = got.iter().filter(|tri| tri.contains(&t)).map(|tri| cross(tri[0], tri[1], tri[2]) > 0.0).collect();
+                // sign claims only outside a band around zero (a collapse onto a collinear
+                // boundary point yields a triangle of area 0 up to rounding)
+                let signs: BTreeSet<bool> = got.iter().filter(|tri| tri.contains(&t)).map(|tri| cross(tri[0], tri[1], tri[2])).filter(|c| c.abs() > 1e-9).map(|c| c > 0.0).collect();
                 if signs.len() > 1 {
-                    out.push(fnd("C15", "collapse-inverted-triangle", format!("{op:?}: triangles around the resulting vertex {:?} do not all have the same orientation", pf(t))));
+                    let around: Vec<String> = got.iter().filter(|tri| tri.contains(&t)).map(|tri| format!("{:?} {:?} {:?} area {:.4}", pf(tri[0]), pf(tri[1]), pf(tri[2]), cross(tri[0], tri[1], tri[2]) / 2.0)).collect();
+                    out.push(fnd("C15", "collapse-inverted-triangle", format!("{op:?}: triangles around the resulting vertex {:?} do not all have the same orientation: {around:?}", pf(t))));
                 }
                 if let Ok(Res::U(vid)) = res {
                     let at = post.vtx.get(*vid as usize).copied().flatten().map(|v| (v[0], v[1]));
